@@ -29,6 +29,15 @@ def converts(tree):
     return True
 
 
+def touch_bases(K):
+    """an arbitrary preceding workload: the declarations of K's base classes are consulted before K's"""
+    for B in reversed(K.__mro__[1:]):
+        if isinstance(B, type) and issubclass(B, Aggregate):
+            B.spec
+            B.listaggregates
+    return K
+
+
 def has_custom_validation(K):
     for b in K.__mro__:
         if b is Aggregate:
@@ -50,7 +59,7 @@ def child_node(K, attr, value):
 
 # ---------------------------------------------------------------- mutex groups, keyword route and tree route
 def h_mutex(ctx, cls, kind, gi):
-    K = ofxgen.class_by_name(cls)
+    K = touch_bases(ofxgen.class_by_name(cls))
     args, kwargs = ofxgen.base_instance(K)
     group = ofxgen.all_mutexes(K, kind)[gi]
     spec = K.spec_no_listaggregates
@@ -94,7 +103,7 @@ def _le(K, text):
 
 # ---------------------------------------------------------------- required children
 def h_required(ctx, cls):
-    K = ofxgen.class_by_name(cls)
+    K = touch_bases(ofxgen.class_by_name(cls))
     args, kwargs = ofxgen.base_instance(K)
     req = [a for a, c in K.spec_no_listaggregates.items() if isinstance(c, Types.Element) and getattr(c, "required", False)]
     a = ctx.choice("omit", req)
@@ -127,7 +136,7 @@ def _limit_attrs(K):
 
 
 def h_limits(ctx, cls):
-    K = ofxgen.class_by_name(cls)
+    K = touch_bases(ofxgen.class_by_name(cls))
     args, kwargs = ofxgen.base_instance(K)
     cands = _limit_attrs(K)
     a, kind = cands[ctx.choice("attr", list(range(len(cands))))]
@@ -199,7 +208,7 @@ def ref_sequence_ok(K, tags):
 
 def h_sequence(ctx, cls):
     """the base document with one structural edit: swap two adjacent children, duplicate one, or move one"""
-    K = ofxgen.class_by_name(cls)
+    K = touch_bases(ofxgen.class_by_name(cls))
     args, kwargs = ofxgen.base_instance(K)
     # enrich the base instance with up to two optional children so that there is something to reorder
     extra = [a for a, c in K.spec_no_listaggregates.items() if a not in kwargs and isinstance(c, Types.Element)]
